@@ -146,7 +146,15 @@ pub fn worker_main(check: &dyn Check, tier: Tier, seed: u64) {
             let _ = o.flush();
         }
         let t0 = Instant::now();
+        WATCHDOG_FIRED.store(false, Ordering::SeqCst);
         let mut report = check.run_case(tier, seed, case);
+        if WATCHDOG_FIRED.load(Ordering::SeqCst) {
+            // a wall-clock watchdog fired somewhere in this case (loaded machine): nothing it concluded
+            // afterwards can be trusted as a verdict — three-valued: inconclusive, never a violation
+            let n = report.violations.len();
+            report.violations.clear();
+            report.inconclusive.push(format!("wall-clock watchdog fired during the case ({} provisional findings dropped)", n));
+        }
         let ms = t0.elapsed().as_millis() as u64;
         if ms > 10_000 {
             report.count(&format!("slow_case_ms:{}", case), ms);
@@ -163,6 +171,12 @@ thread_local! {
     static LAST_PANIC: std::cell::RefCell<Option<PanicSite>> = std::cell::RefCell::new(None);
 }
 static ANY_THREAD_PANICS: Mutex<Vec<PanicSite>> = Mutex::new(Vec::new());
+static WATCHDOG_FIRED: std::sync::atomic::AtomicBool = std::sync::atomic::AtomicBool::new(false);
+
+/// called by drivers when a generous wall-clock watchdog fires
+pub fn note_watchdog() {
+    WATCHDOG_FIRED.store(true, Ordering::SeqCst);
+}
 
 #[derive(Clone, Debug, Serialize, Deserialize)]
 pub struct PanicSite {
